@@ -30,7 +30,8 @@ def dtype_family_tests(ctx, rel, rule, min_sites=1):
                 n += 1
                 # an allow-list: the abstract scalar types of numpy (written as np.<name>); a concrete width (np.float64, np.double,
                 # "float64", np.dtype(float)), a builtin or a computed type names one dtype of the family
-                ok_t = isinstance(t, ast.Attribute) and isinstance(t.value, ast.Name) and t.value.id in ("np", "numpy") and t.attr in _ABSTRACT_NP_TYPES
+                ok_t = isinstance(t, ast.Attribute) and isinstance(t.value, ast.Name) and t.value.id in ("np", "numpy") and t.attr in _ABSTRACT_NP_TYPES \
+                    or isinstance(t, ast.Name) and t.id in ("str", "bytes", "bool", "object")      # builtins that stand for a whole kind
                 ctx.ob(rule, rel, qual, ast.unparse(c)[:80], ok_t,
                        f"the test names {ast.unparse(t)[:40]}, not an abstract numpy type: arrays of the other widths of the family take the wrong branch",
                        c.lineno)
@@ -75,6 +76,10 @@ def _truth_tested_names(fn, before=None):
                 mark(v)
         elif isinstance(e, ast.UnaryOp) and isinstance(e.op, ast.Not):
             mark(e.operand)
+    refusing_ = set()
+    for n in ast.walk(fn):
+        if isinstance(n, ast.If) and n.body and all(isinstance(b, ast.Raise) for b in n.body) and not n.orelse:
+            refusing_.update(id(x) for x in ast.walk(n.test))       # `if model == 0: raise ..` rejects the value, it does not mean "absent"
     for n in ast.walk(fn):
         if isinstance(n, ast.BoolOp):
             for v in n.values:
@@ -95,7 +100,7 @@ def _truth_tested_names(fn, before=None):
             mark(n.args[0])
         elif isinstance(n, ast.Call) and isinstance(n.func, ast.Attribute) and n.func.attr in ("__bool__", "__len__") and not n.args:
             mark(n.func.value)
-        elif isinstance(n, ast.Compare) and len(n.ops) == 1 and isinstance(n.ops[0], (ast.Eq, ast.NotEq)) and \
+        elif isinstance(n, ast.Compare) and len(n.ops) == 1 and isinstance(n.ops[0], (ast.Eq, ast.NotEq)) and id(n) not in refusing_ and \
                 any(isinstance(x, ast.Constant) and not isinstance(x.value, bool) and x.value == 0 and isinstance(x.value, (int, float)) for x in (n.left, n.comparators[0])):
             # `x != 0` / `x == 0` single the legal value 0 out exactly as the truth test does
             mark(n.left)
@@ -199,7 +204,12 @@ def _decided_other_than_by_none(fn, names, before=None):
                         if any(falsy_literal(x) for x in other.elts):
                             out.setdefault(m.id, e)
                         continue
-                    if falsy_literal(other) and not (isinstance(op, (ast.Lt, ast.LtE, ast.Gt, ast.GtE)) and isinstance(this, (ast.Name, ast.Subscript, ast.Attribute))):
+                    # (a comparison of an arithmetic RESULT with zero - `chunk_size % step != 0` - is about that result)
+                    direct = isinstance(this, ast.Name) or isinstance(this, ast.UnaryOp) and isinstance(this.operand, ast.Name) or \
+                        isinstance(this, ast.Call) and (call_name(this) or "") in ("abs", "int", "float", "bool", "len", "round") \
+                        or not isinstance(this, (ast.BinOp, ast.Subscript, ast.Attribute))
+                    if falsy_literal(other) and direct and id(e) not in refusing \
+                            and not (isinstance(op, (ast.Lt, ast.LtE, ast.Gt, ast.GtE)) and isinstance(this, (ast.Name, ast.Subscript, ast.Attribute))):
                         # `p != 0`, `abs(p) > 0`, `p != 1 - 1`: the legal zero is singled out (an ordering test against zero that is the
                         # function's own range check is written against the documented bound, not in a test that also asks for None)
                         out.setdefault(m.id, e)
@@ -213,6 +223,11 @@ def _decided_other_than_by_none(fn, names, before=None):
             return          # table[p] decides by what the table holds
         out.setdefault(m.id, e)
 
+    # a test whose branch refuses (`if model == 0: raise ValueError(..)`) singles the value out to REJECT it, not to treat it as absent
+    refusing = set()
+    for n in ast.walk(fn):
+        if isinstance(n, ast.If) and n.body and all(isinstance(b, ast.Raise) for b in n.body) and not n.orelse:
+            refusing.update(id(x) for x in ast.walk(n.test))
     for n in ast.walk(fn):
         if isinstance(n, (ast.If, ast.While, ast.IfExp, ast.Assert)):
             truth(n.test)
@@ -890,6 +905,10 @@ def _one_shot_inside(e, generator_functions=(), module_aliases=None):
         return False
 
     def walk(x, covered):
+        # next(iter(E)) is an ITEM of E: the iterator made on the spot is used up to that item
+        if isinstance(x, ast.Call) and isinstance(x.func, ast.Name) and x.func.id == "next" and x.args and isinstance(x.args[0], ast.Call) \
+                and isinstance(x.args[0].func, ast.Name) and x.args[0].func.id == "iter" and len(x.args[0].args) == 1:
+            return walk(x.args[0].args[0], covered)
         if lazy(x) and not covered:
             return True
         mat = isinstance(x, ast.Call) and ((call_name(x) or "") in _MATERIALISING or isinstance(x.func, ast.Attribute) and x.func.attr == "join")
@@ -931,7 +950,7 @@ def iterator_locals_consumed_twice(fn, generator_functions=(), module_aliases=No
     binds = {}
     # every construct that binds a name to (an item of) a value: plain, chained and annotated assignments, walrus, `for x in [value]`,
     # `with manager(value) as x`
-    gen_funcs = {n.name for n in ast.walk(fn) if isinstance(n, (ast.FunctionDef, ast.AsyncFunctionDef)) and n is not fn
+    gen_funcs = {n.name for n in ast.walk(fn) if isinstance(n, (ast.FunctionDef, ast.AsyncFunctionDef)) and n is not fn and not n.decorator_list
                  and any(isinstance(y, (ast.Yield, ast.YieldFrom)) for y in ast.walk(n))} | set(generator_functions or ())
     for st in ast.walk(fn):
         pairs = []
@@ -940,9 +959,13 @@ def iterator_locals_consumed_twice(fn, generator_functions=(), module_aliases=No
         elif isinstance(st, (ast.AnnAssign, ast.NamedExpr)) and st.value is not None:
             pairs = [(st.target, st.value)]
         elif isinstance(st, (ast.For, ast.AsyncFor, ast.comprehension)):
-            pairs = [(st.target, st.iter)]
+            # the target is an ITEM of what is iterated: `for x in [gen]` binds x to the generator, `for i in enumerate(xs)` does not
+            if isinstance(st.iter, (ast.List, ast.Tuple, ast.Set)) and isinstance(st.target, ast.Name):
+                pairs = [(st.target, e_) for e_ in st.iter.elts]
         elif isinstance(st, (ast.With, ast.AsyncWith)):
-            pairs = [(i.optional_vars, i.context_expr) for i in st.items if i.optional_vars is not None]
+            # `with m as x` binds what m.__enter__() hands out - known only for the pass-through manager contextlib.nullcontext(v)
+            pairs = [(i.optional_vars, i.context_expr.args[0]) for i in st.items if i.optional_vars is not None
+                     and isinstance(i.context_expr, ast.Call) and (call_name(i.context_expr) or "").split(".")[-1] == "nullcontext" and i.context_expr.args]
         for t, v in pairs:
             for x in ast.walk(t):
                 if isinstance(x, ast.Name) and isinstance(x.ctx, ast.Store):
@@ -959,7 +982,11 @@ def iterator_locals_consumed_twice(fn, generator_functions=(), module_aliases=No
         shots = [b for b in bs if _one_shot_inside(b.value, gen_funcs, module_aliases)]
         if not shots:
             continue
-        uses = [x for x in ast.walk(fn) if isinstance(x, ast.Name) and x.id == nm and isinstance(x.ctx, ast.Load)]
+        # reads that do not run the iterator to its end: `it is None`, `next(it)` (one item, by design)
+        passive = {id(x) for c_ in ast.walk(fn) if isinstance(c_, ast.Compare) and all(isinstance(o, (ast.Is, ast.IsNot)) for o in c_.ops)
+                   for x in [c_.left] + list(c_.comparators)}
+        passive |= {id(c_.args[0]) for c_ in ast.walk(fn) if isinstance(c_, ast.Call) and isinstance(c_.func, ast.Name) and c_.func.id == "next" and c_.args}
+        uses = [x for x in ast.walk(fn) if isinstance(x, ast.Name) and x.id == nm and isinstance(x.ctx, ast.Load) and id(x) not in passive]
         bad = None
         for i, u in enumerate(uses):
             for v in uses[i + 1:]:
@@ -990,7 +1017,8 @@ def iterators_consumed_once(ctx, rel, rule):
     s = ctx.src(rel)
     n = 0
     # functions of the module that are generators, and the names under which the module imports itertools (and its functions)
-    mod_gens = {q.split(".")[-1] for q, g in s.funcs.items() if any(isinstance(y, (ast.Yield, ast.YieldFrom)) for y in ast.walk(g))}
+    # (a decorated generator function - @contextlib.contextmanager - does not hand out a generator)
+    mod_gens = {q.split(".")[-1] for q, g in s.funcs.items() if not g.decorator_list and any(isinstance(y, (ast.Yield, ast.YieldFrom)) for y in ast.walk(g))}
     mod_alias = {}
     for st in ast.walk(s.tree):
         if isinstance(st, ast.Import):
